@@ -13,6 +13,75 @@ import build
 h = common.repo_env()
 
 
+def programs():
+    """Design programs beyond the IR generator: generator parameter classes of every non-scalar kind (their modules get hashed
+    names), the built-in generators, and several tops exported together."""
+    import enum
+    from typing import Optional, Tuple, List
+    from hdl21.generators import Series, MosStack, Wrapper
+    from hdl21.prefix import m as MILLI, K
+
+    class Flavor(enum.Enum):
+        A = "a"
+        B = "b"
+
+    @h.paramclass
+    class Sub:
+        w = h.Param(dtype=int, desc="w", default=2)
+        tag = h.Param(dtype=str, desc="tag", default="t")
+
+    @h.paramclass
+    class P:
+        unit = h.Param(dtype=h.Instantiable, desc="unit")
+        flavor = h.Param(dtype=Flavor, desc="flavor", default=Flavor.A)
+        sub = h.Param(dtype=Sub, desc="sub", default_factory=Sub)
+        dims = h.Param(dtype=Tuple[int, int], desc="dims", default=(1, 2))
+        names = h.Param(dtype=Tuple[str, ...], desc="names", default=("x", "y"))
+        val = h.Param(dtype=Optional[h.Prefixed], desc="val", default=None)
+
+    @h.paramclass
+    class EP:
+        a = h.Param(dtype=int, desc="a", default=1)
+        b = h.Param(dtype=str, desc="b", default="two")
+
+    E = h.ExternalModule(name="Ext12", port_list=[h.Port(name="p"), h.Port(name="n")], paramtype=EP)
+
+    @h.module
+    class Cell:
+        p, n = h.Ports(2)
+        r = h.R(r=1 * K)(p=p, n=n)
+
+    @h.generator
+    def G(params: P) -> h.Module:
+        mod = h.Module()
+        mod.p, mod.n = h.Port(), h.Port()
+        for k, nm in enumerate(params.names):
+            mod.add(params.unit(p=mod.p, n=mod.n), name=f"u_{nm}{k}")
+        return mod
+
+    units = {
+        "mos_n": lambda: h.Mos(tp=h.MosType.NMOS),
+        "mos_p": lambda: h.Mos(tp=h.MosType.PMOS, vth=h.MosVth.LOW),
+        "r_lit": lambda: h.R(r=h.Literal("rval")),
+        "r_num": lambda: h.R(r=3 * K),
+        "c_pre": lambda: h.C(c=5 * MILLI),
+        "ext": lambda: E(EP(a=3)),
+        "cell": lambda: Cell,
+    }
+    progs = {}
+    for un, u in units.items():
+        if not un.startswith("mos"):
+            progs[f"G_{un}"] = lambda u=u: G(unit=u(), flavor=Flavor.B, val=2 * MILLI)
+            progs[f"Series_{un}"] = lambda u=u: Series(unit=u(), nser=3, conns=("p", "n"))
+            progs[f"Wrapper_{un}"] = lambda u=u: Wrapper(u())
+        else:
+            progs[f"MosStack_{un}"] = lambda u=u: MosStack(unit=u(), nser=3)
+            progs[f"Series_{un}"] = lambda u=u: Series(unit=u(), nser=2, conns=("d", "s"))
+    progs["tops_list"] = lambda: [G(unit=Cell), Series(unit=h.R(r=1), nser=2, conns=("p", "n")), Cell, G(unit=h.C(c=1), names=("q",))]
+    progs["tops_list_rev"] = lambda: [Cell, Series(unit=h.R(r=2), nser=2, conns=("p", "n")), G(unit=Cell, dims=(3, 4))]
+    return progs
+
+
 def main():
     cases = json.load(open(sys.argv[1]))
     noise = random.Random(int(sys.argv[2]))
@@ -28,8 +97,17 @@ def main():
             h.elaborate(junk)
         res = {}
         try:
-            b = build.build(c["design"], c.get("style", "proc"))
-            pkg = h.to_proto(b.top)
+            if "program" in c:
+                pkg = h.to_proto(programs()[c["program"]]())
+            else:
+                b = build.build(c["design"], c.get("style", "proc"))
+                pkg = h.to_proto(b.top)
+                # … and every module of the design as a list of tops (a separate export of the same, already elaborated, objects)
+                try:
+                    lp = h.to_proto(list(b.modules.values()))
+                    res["pkg_list"] = hashlib.md5(lp.SerializeToString(deterministic=True)).hexdigest()
+                except Exception as ex:  # noqa
+                    res["pkg_list"] = "raise:" + type(ex).__name__
             res["pkg"] = hashlib.md5(pkg.SerializeToString(deterministic=True)).hexdigest()
             for fmt in ("spice", "spectre", "verilog"):
                 try:
